@@ -76,6 +76,9 @@ type methodDesc struct {
 	result  string // "", "int", "string"
 	body    []stmt
 	retExpr *expr
+	// shadow methods: a parameter or the named result carries the name of a field/method
+	namedResult string // "" or the name of the (int) result
+	rawBody     string // body text, identical in both forms (members via this., locals bare)
 }
 
 type globalVar struct {
@@ -92,6 +95,7 @@ type classDesc struct {
 	dupField     bool // a repeated field name (compile error "redeclared")
 	capture      bool // embedded *strings.Reader + method using len(): member captures builtin
 	predecl      bool // some members are named like Go predeclared identifiers
+	shadow       bool // locals/parameters/results shadow members inside the methods
 	globals      []globalVar
 	methods      []methodDesc
 	explicitRecv bool // one extra method on the auxiliary type declared in the file
@@ -350,10 +354,99 @@ func genClass(r *vh.Rand, idx int, tier string) *classDesc {
 		}
 		g.methods = append(g.methods, m)
 	}
+	// locals, loop variables, closure and lambda parameters, parameters and named results that
+	// SHADOW a field or a method, used at every nesting depth; members are reached through this.
+	// (Go scoping: the innermost declaration wins; identical text in both forms)
+	if len(g.intF) > 0 && r.Chance(60) {
+		c.shadow = true
+		for i := range g.methods {
+			if r.Chance(60) {
+				F := g.pick(g.intF)
+				M := g.methods[r.Intn(len(g.methods))].name
+				sn := shadowSnippets(F, M, idx)
+				st := stmt{op: "raw", field: sn[r.Intn(len(sn))]}
+				g.methods[i].body = append(g.methods[i].body, st)
+			}
+		}
+		F := g.pick(g.intF)
+		F2 := g.pick(g.intF)
+		M := g.methods[r.Intn(len(g.methods))].name
+		g.methods = append(g.methods, methodDesc{name: fmt.Sprintf("shp%d", idx), params: []param{{F, "int"}, {M, "int"}}, result: "int",
+			rawBody: fmt.Sprintf("\tif %[1]s > 0 {\n\t\techo \"shp\", %[1]s, %[2]s, this.%[1]s\n\t\tfunc() {\n\t\t\tthis.%[1]s += %[1]s + %[2]s\n\t\t}()\n\t\tfor k := 0; k < 2; k++ {\n\t\t\t%[1]s += k\n\t\t}\n\t}\n\treturn %[1]s * 10 + %[2]s\n", F, M)})
+		g.methods = append(g.methods, methodDesc{name: fmt.Sprintf("shr%d", idx), result: "int", namedResult: F2,
+			rawBody: fmt.Sprintf("\tfor k := 0; k < 3; k++ {\n\t\t%[1]s += k + 1\n\t\tif %[1]s > 2 {\n\t\t\tthis.%[1]s += %[1]s\n\t\t}\n\t}\n\tdefer func() {\n\t\t%[1]s += 100\n\t}()\n\treturn\n", F2)})
+	}
 	c.methods = g.methods
 	c.explicitRecv = r.Chance(30) && containsStr(c.pre, "T")
 	// the special capture case replaces the class by a fixed shape
 	return c
+}
+
+// shadowSnippets: statement groups in which a local / loop variable / closure or lambda parameter
+// is called like the int field F or the method M and is used from nested blocks and closures.
+func shadowSnippets(F, M string, idx int) []string {
+	rep := func(t string) string {
+		return strings.NewReplacer("‹F›", F, "‹M›", M).Replace(t)
+	}
+	return []string{
+		rep(`{
+	‹F› := this.‹F› + 1
+	if ‹F› > -1000 {
+		echo "sh1", ‹F›
+		for i := 0; i < 2; i++ {
+			‹F› += i
+		}
+		func() {
+			echo "sh1c", ‹F›
+			this.‹F› += 1
+		}()
+	}
+	echo "sh1e", ‹F›, this.‹F›
+}`),
+		rep(`for ‹F› := 0; ‹F› < 2; ‹F›++ {
+	if ‹F› >= 0 {
+		echo "sh2", ‹F›, this.‹F›
+	}
+}
+for _, ‹F› := range []int{4, 5} {
+	func() {
+		echo "sh2r", ‹F›
+	}()
+}`),
+		rep(`func(‹F› int) {
+	if ‹F› > 0 {
+		echo "sh3", ‹F›, this.‹F›
+		switch {
+		case ‹F› > 1:
+			this.‹F› += ‹F›
+		}
+	}
+}(3)`),
+		rep(`{
+	‹M› := 5
+	if ‹M› > 0 {
+		echo "sh4", ‹M›
+		func() {
+			‹M› += 2
+		}()
+	}
+	echo "sh4e", ‹M›
+}`),
+		rep(`echo "sh5", applyInt(‹F› => {
+	if ‹F› > 0 {
+		return ‹F› + this.‹F›
+	}
+	return ‹F›
+}, 2), applyInt(‹M› => ‹M› * 3, 4)`),
+		rep(`{
+	var ‹F›, ‹M› = 7, "m"
+	for k := 0; k < 1; k++ {
+		if ‹M› == "m" {
+			echo "sh6", ‹F› + k, ‹M›
+		}
+	}
+}`),
+	}
 }
 
 func containsStr(xs []string, s string) bool {
@@ -569,6 +662,10 @@ func renderStmts(ss []stmt, f form, ind string) string {
 			fmt.Fprintf(&b, "%s%s = !%s\n", ind, fld, fld)
 		case "echo":
 			fmt.Fprintf(&b, "%secho \"m\", %s\n", ind, s.e.render(f))
+		case "raw":
+			for _, l := range strings.Split(strings.TrimRight(s.field, "\n"), "\n") {
+				b.WriteString(ind + l + "\n")
+			}
 		case "callstmt":
 			fmt.Fprintf(&b, "%s%s\n", ind, s.e.render(f))
 		case "if":
@@ -584,7 +681,9 @@ func (m *methodDesc) sig() string {
 		ps[i] = p.name + " " + p.typ
 	}
 	s := m.name + "(" + strings.Join(ps, ", ") + ")"
-	if m.result != "" {
+	if m.namedResult != "" {
+		s += " (" + m.namedResult + " " + m.result + ")"
+	} else if m.result != "" {
 		s += " " + m.result
 	}
 	return s
@@ -597,6 +696,7 @@ func (m *methodDesc) render(f form, cls string) string {
 	} else {
 		fmt.Fprintf(&b, "func (this *%s) %s {\n", cls, m.sig())
 	}
+	b.WriteString(m.rawBody)
 	b.WriteString(renderStmts(m.body, f, "\t"))
 	if m.retExpr != nil {
 		fmt.Fprintf(&b, "\treturn %s\n", m.retExpr.render(f))
@@ -831,6 +931,10 @@ type Inner struct {
 
 func (i *Inner) Val() int {
 	return i.val * 2
+}
+
+func applyInt(f func(int) int, x int) int {
+	return f(x)
 }
 `
 
@@ -1071,6 +1175,12 @@ func run(classes []*classDesc, o *vh.Out, workdir string, seed uint64) {
 			}
 		}
 		files["main.xgo"] = mainText(live, seed)
+		if d := os.Getenv("C11_DUMPDIR"); d != "" {
+			os.MkdirAll(d, 0o755)
+			for n, t := range files {
+				os.WriteFile(filepath.Join(d, n), []byte(t), 0o644)
+			}
+		}
 		out, err := compcx.CompileDir(files)
 		if err == nil {
 			classOut = out
@@ -1138,6 +1248,9 @@ func run(classes []*classDesc, o *vh.Out, workdir string, seed uint64) {
 		}
 		if c.predecl {
 			o.Count("shape_predeclared_member_names")
+		}
+		if c.shadow {
+			o.Count("shape_locals_shadow_members")
 		}
 		switch {
 		case c.noVarBlock:
@@ -1263,6 +1376,9 @@ func main() {
 			c.gen = fmt.Sprintf("gen=%d:%d:%s", seed, idx, tier)
 		} else {
 			c = mk(seed, idx, tier)
+		}
+		if os.Getenv("C11_DUMP") != "" {
+			fmt.Println(c.classText())
 		}
 		run([]*classDesc{c}, o, f.Out, seed)
 		return
